@@ -226,7 +226,9 @@ fn check_spans(b: &Built, errs: &prqlc::ErrorMessages, stage: &str, conv: Conv) 
         let named = if b.files.len() == 1 { if sp.source_id == 1 { Some(&b.files[0].0) } else { None } } else { b.files.get((sp.source_id as usize).wrapping_sub(1)).map(|f| &f.0) };
         match named {
             None => {
-                bad.push(("span-names-no-file-of-the-project".into(), format!("span {sp:?}: source id {} is not a file of this project ({})", sp.source_id, e.reason)));
+                // recorded cause: an `internal compiler error` located in the bundled std library (source id 0)
+                let key = if sp.source_id == 0 && e.reason.contains("internal compiler error") { "span-names-no-file-of-the-project:internal-error-located-in-std" } else { "span-names-no-file-of-the-project" };
+                bad.push((key.into(), format!("span {sp:?}: source id {} is not a file of this project ({})", sp.source_id, e.reason)));
                 continue;
             }
             Some(f) if *f != b.err_file => {
